@@ -149,13 +149,14 @@ def interp_refine(ctx, cfg, d, field, u0s, t0, hs):
     ctx.case(dict(cfg.key(), d=d, mode="interpolate_fwd_at_t1"))
 
 
-def solve_save_at(objs, save_at, tol, dt0, clip=False, eps=1e-8, damp=0.0):
+def solve_save_at(objs, save_at, tol, dt0, clip=False, eps=1e-8, damp=0.0, control=None):
     import jax.numpy as jnp
     from probdiffeq import ivpsolve
     from probdiffeq import probdiffeq as pdq
 
     err = pdq.error_residual_std(constraint=objs["constraint"])
-    solve = ivpsolve.solve_adaptive_save_at(solver=objs["solver"], error=err, clip_dt=clip)
+    ctl = {} if control is None else {"control": ivpsolve.control_proportional_integral()}
+    solve = ivpsolve.solve_adaptive_save_at(solver=objs["solver"], error=err, clip_dt=clip, **ctl)
     return solve(objs["prior"], save_at=jnp.asarray(save_at), atol=tol, rtol=tol, dt0=dt0, eps=eps, damp=damp)
 
 
@@ -167,7 +168,11 @@ def superset(ctx, cfg, d, field, u0s, t0, t1, tol, dt0):
     rng = ctx.rng
     nA = int(rng.integers(1, 4))
     A = sorted(set(float(x) for x in t0 + (t1 - t0) * rng.uniform(0.05, 0.95, size=nA)))
-    solA = solve_save_at(objs, [t0, *A, t1], tol, dt0)
+    # the stateful proportional-integral controller in every third case: its memory belongs to the stepper projection and
+    # must survive interpolations (seeded change C05-s10)
+    objs["control"] = "PI" if rng.random() < 0.34 else None
+    ctx.count(f"superset control={'PI' if objs['control'] else 'I'}")
+    solA = solve_save_at(objs, [t0, *A, t1], tol, dt0, control=objs["control"])
     if not np.all(np.isfinite(np.asarray(solA.u.mean[0]))):
         ctx.skip("adaptive run produced non-finite means (problem blows up)")
         return
@@ -179,7 +184,10 @@ def superset(ctx, cfg, d, field, u0s, t0, t1, tol, dt0):
     cfe = dataclasses.replace(cfg, strategy="filter")
     oe = sm.build(cfe, field, u0s, t0)
     err = pdq.error_residual_std(constraint=oe["constraint"])
-    ste = test_util.solve_adaptive_save_every_step(oe["solver"], err, clip_dt=False)(oe["prior"], t0, t1, atol=tol, rtol=tol, dt0=dt0)
+    from probdiffeq import ivpsolve
+
+    ctl_e = ivpsolve.control_proportional_integral() if objs.get("control") else None
+    ste = test_util.solve_adaptive_save_every_step(oe["solver"], err, control=ctl_e, clip_dt=False)(oe["prior"], t0, t1, atol=tol, rtol=tol, dt0=dt0)
     ends = [float(x) for x in np.asarray(ste.t)[1:-1] if t0 < x < t1]
     if ends:
         e = float(gen.pick(rng, ends))
@@ -227,7 +235,7 @@ def tiny_offset_bound(cfg, A, B, grid, eps_arg=1e-8):
 def _superset_compare(ctx, cfg, d, field, u0s, t0, t1, tol, dt0, objs, A, B, solA, grid, corpus=False):
     import jax
 
-    solB = solve_save_at(objs, [t0, *B, t1], tol, dt0)
+    solB = solve_save_at(objs, [t0, *B, t1], tol, dt0, control=objs.get("control"))
     d11, rmin = tiny_offset_bound(cfg, A, B, grid)
     d11 = min(d11, 0.05)  # never excuse an O(1) change
     case = {"config": cfg.key(), "field": field.describe(), "u0": [np.asarray(u).tolist() for u in u0s], "t0": t0, "t1": t1, "tol": tol, "dt0": dt0, "A": A, "B": B}
@@ -357,6 +365,21 @@ def corpus_tiny_offset(ctx):
     _superset_compare(ctx, cfg, 2, field, u0s, t0, t1, tol, dt0, objs, A, B, solA, [t0, *ends, t1], corpus=True)
 
 
+def corpus_pi_controller(ctx):
+    """deterministic superset comparison with the stateful proportional-integral controller (filter, checkpoints strictly
+    inside steps): the controller's memory is part of what stepping continues from (C05Loop.proj) and survives interpolation"""
+    cfg = sm.Config(fact="iso", solver="solver", strategy="filter", lin="ts0", q=2, damp=0.0, init="exact", base_scale=None)
+    comps = [[(Fraction(5, 4), (1, 0, 0)), (Fraction(-1), (2, 0, 0))], [(Fraction(-1), (0, 1, 0)), (Fraction(3, 8), (1, 0, 0))]]
+    field = problems.PolyField(2, 1, comps)
+    u0s, t0, t1, tol, dt0 = [np.array([0.25, 1.0])], 0.0, 3.0, 1e-4, 0.05
+    objs = sm.build(cfg, field, u0s, t0)
+    objs["control"] = "PI"
+    A = [1.75]
+    B = [0.3, 0.55, 0.9, 1.2, 1.75, 2.1, 2.6]
+    solA = solve_save_at(objs, [t0, *A, t1], tol, dt0, control="PI")
+    _superset_compare(ctx, cfg, 2, field, u0s, t0, t1, tol, dt0, objs, A, B, solA, [t0, t1], corpus=True)
+
+
 def run(ctx):
     import warnings
 
@@ -371,6 +394,7 @@ def run(ctx):
     )
     ctx.assumptions += ["as C02; clipping off for the superset comparison (the property's premise)"]
     corpus_tiny_offset(ctx)
+    corpus_pi_controller(ctx)
     n = ctx.n(12, 160)
     for it in range(n):
         strat = ["filter", "fixedpoint", "fixedinterval"][it % 3]
